@@ -37,7 +37,7 @@ def compact(events, ifi="vf0", conf=False):
                 kind, cls = "readerr", kind.split(":", 1)[1] if ":" in kind else "other"
             out.append({"ev": ev, "k": e["k"], "kind": kind, "cls": cls, "src": e["src"], "hl": e["hl"], "t": t})
         elif ev == "fwd":
-            out.append({"ev": ev, "val": e["val"], "ok": e["ok"], "t": t})
+            out.append({"ev": ev, "val": e["val"], "ok": e["ok"], "cls": e.get("class", ""), "t": t})
         elif ev == "wcall":
             out.append({"ev": ev, "k": e["k"], "dst": e["dst"], "mc": e["mc"], "type": e["type"],
                         "life": e["life"], "body": e["body"], "t": t})
@@ -86,6 +86,8 @@ def compact(events, ifi="vf0", conf=False):
             if kind.startswith("readerr"):
                 kind = "readerrsys" if kind == "readerr:sys" else "readerr"
             out.append({"ev": "arrive", "kind": kind, "src": e["src"], "hl": e["hl"], "tag": e.get("tag", ""), "t": t})
+        elif ev == "wclose" and conf:
+            out.append({"ev": "wclose", "t": t})
         elif ev == "flip" and conf:
             out.append({"ev": "flip", "val": e["val"], "t": t})
         elif ev == "advance":
